@@ -75,18 +75,16 @@ Kind(m, shard) ==
 \* shards whose (meta) block can carry the header of miniblock m
 CarrierShards(m) == {Sender(dir[m]), Receiver(dir[m])}
 
-\* consumePendingNotificationsWithLock: source map, destination map, both map; a notification whose
-\* miniblock has no metadata yet stays pending
-Consume(me, mt, ps, pd, pb) ==
-    LET found(m) == ByMbHash(me, mt, m) # NoRec
-        patch(r, s, d) == [r EXCEPT !.src = IF s # 0 THEN s ELSE @, !.dst = IF d # 0 THEN d ELSE @]
-        \* the three passes touch disjoint fields except "both", which is applied last
-        s(m) == IF pb[m] # 0 THEN pb[m] ELSE ps[m]
-        d(m) == IF pb[m] # 0 THEN pb[m] ELSE pd[m]
-    IN  [mt |-> [m \in MBs |-> IF found(m) THEN [mt[m] EXCEPT ![me[m]] = patch(@, s(m), d(m))] ELSE mt[m]],
-         ps |-> [m \in MBs |-> IF found(m) THEN 0 ELSE ps[m]],
-         pd |-> [m \in MBs |-> IF found(m) THEN 0 ELSE pd[m]],
-         pb |-> [m \in MBs |-> IF found(m) THEN 0 ELSE pb[m]]]
+\* consumePendingNotificationsWithLock, for one miniblock: r = its metadata record (NoRec: not yet committed ->
+\* the notification stays pending), s/d/bt = its entries in the source / destination / both maps (0 = none).
+\* The three passes run source, destination, both; "both" overwrites.
+\* (Everything below is written per miniblock over the concrete state variables: TLC evaluates nested
+\* function-valued LETs lazily and repeatedly, which made the first version 20x slower.)
+Patched(r, s, d, bt) ==
+    IF r = NoRec THEN r
+    ELSE [r EXCEPT !.src = IF bt # 0 THEN bt ELSE IF s # 0 THEN s ELSE @,
+                   !.dst = IF bt # 0 THEN bt ELSE IF d # 0 THEN d ELSE @]
+StillPending(r, p) == IF r = NoRec THEN p ELSE 0
 
 -----------------------------------------------------------------------------
 (* what the property requires, as a function of the ghost state *)
@@ -98,8 +96,7 @@ Req(bl, la, hc, ss, sd, os, od) ==
 Obs(hd, ti, me, mt, bl, la, hc, ss, sd, os, od) ==
     [req  |-> Req(bl, la, hc, ss, sd, os, od),
      hdrs |-> [b \in Headers |-> bl[b].epoch],            \* required GetEpochByHash(header), 0 = never committed
-     impl |-> [m \in MBs |-> LookupIn(ti, me, mt, m)],    \* what this model of the code answers (drift only)
-     implHdrs |-> hd]
+     impl |-> [m \in MBs |-> LookupIn(ti, me, mt, m)]]    \* what this model of the code answers (drift only)
 
 Init ==
     /\ dir \in [MBs -> Dirs]
@@ -120,21 +117,24 @@ RecordBlock(b, e, ms) ==
     /\ e >= maxEpoch                                            \* committed blocks have non-decreasing epochs
     /\ IF blocks[b] = NoBlock THEN ms # {} ELSE blocks[b] = [epoch |-> e, mbs |-> ms]  \* a hash determines the block
     /\ LET skip(m)  == dedup[m][e] # 0 /\ ("dedup" \in Defects \/ dedup[m][e] = b)   \* hasRecentlyInserted...
-           W        == {m \in ms : ~skip(m)}
+           W        == {m \in ms : ~skip(m)}                                          \* miniblocks (re)inserted
            prev(m)  == ByMbHash(mbEpoch, meta, m)
            fresh(m) == [hdr |-> b, epoch |-> e,
                         src |-> IF "lost" \in Defects THEN 0 ELSE prev(m).src,
                         dst |-> IF "lost" \in Defects THEN 0 ELSE prev(m).dst]
-           mt1      == [m \in MBs |-> IF m \in W THEN [meta[m] EXCEPT ![e] = fresh(m)] ELSE meta[m]]
-           me1      == [m \in MBs |-> IF m \in W THEN e ELSE mbEpoch[m]]
-           c        == IF "lag" \in Defects
-                       THEN [mt |-> mt1, ps |-> pendSrc, pd |-> pendDst, pb |-> pendBoth]
-                       ELSE Consume(me1, mt1, pendSrc, pendDst, pendBoth)
+           ep1(m)   == IF m \in W THEN e ELSE mbEpoch[m]          \* saveEpochByHash(miniblockHash, epoch)
+           rec1(m)  == IF m \in W THEN fresh(m) ELSE prev(m)      \* putMiniblockMetadata
+           here     == "lag" \notin Defects                      \* intended design: consume pending here too
+           rec2(m)  == IF here THEN Patched(rec1(m), pendSrc[m], pendDst[m], pendBoth[m]) ELSE rec1(m)
+           pend(p, m) == IF here THEN StillPending(rec1(m), p[m]) ELSE p[m]
        IN  /\ hdrEpoch' = [hdrEpoch EXCEPT ![b] = e]
-           /\ mbEpoch' = me1 /\ meta' = c.mt
+           /\ mbEpoch' = [m \in MBs |-> ep1(m)]
+           /\ meta' = [m \in MBs |-> IF ep1(m) = 0 THEN meta[m] ELSE [meta[m] EXCEPT ![ep1(m)] = rec2(m)]]
            /\ dedup' = [m \in MBs |-> IF m \in W THEN [dedup[m] EXCEPT ![e] = b] ELSE dedup[m]]
            /\ txIdx' = txIdx \cup W
-           /\ pendSrc' = c.ps /\ pendDst' = c.pd /\ pendBoth' = c.pb
+           /\ pendSrc' = [m \in MBs |-> pend(pendSrc, m)]
+           /\ pendDst' = [m \in MBs |-> pend(pendDst, m)]
+           /\ pendBoth' = [m \in MBs |-> pend(pendBoth, m)]
     /\ blocks' = [blocks EXCEPT ![b] = [epoch |-> e, mbs |-> ms]]
     /\ last' = [m \in MBs |-> IF m \in ms THEN b ELSE last[m]]
     /\ hclass' = [m \in MBs |->
@@ -161,9 +161,14 @@ AllOf(es, m, ks) == {es[i].meta : i \in {j \in 1..Len(es) : es[j].mb = m /\ Kind
 \* each [meta |-> meta block, shard |-> shard of the containing (shard or meta) block, mb |-> miniblock]
 Notify(es) ==
     /\ \A i \in 1..Len(es) : es[i].shard \in CarrierShards(es[i].mb)
-    /\ LET q(p, ks) == [m \in MBs |-> IF LastOf(es, m, ks) # 0 THEN LastOf(es, m, ks) ELSE p[m]]
-           c == Consume(mbEpoch, meta, q(pendSrc, {"src"}), q(pendDst, {"dst"}), q(pendBoth, {"both"}))
-       IN  /\ meta' = c.mt /\ pendSrc' = c.ps /\ pendDst' = c.pd /\ pendBoth' = c.pb
+    /\ LET q(p, ks, m) == IF LastOf(es, m, ks) # 0 THEN LastOf(es, m, ks) ELSE p[m]     \* pendingMap.Set
+           r(m) == ByMbHash(mbEpoch, meta, m)
+       IN  /\ meta' = [m \in MBs |-> IF mbEpoch[m] = 0 THEN meta[m]
+                                      ELSE [meta[m] EXCEPT ![mbEpoch[m]] =
+                                              Patched(r(m), q(pendSrc, {"src"}, m), q(pendDst, {"dst"}, m), q(pendBoth, {"both"}, m))]]
+           /\ pendSrc' = [m \in MBs |-> StillPending(r(m), q(pendSrc, {"src"}, m))]
+           /\ pendDst' = [m \in MBs |-> StillPending(r(m), q(pendDst, {"dst"}, m))]
+           /\ pendBoth' = [m \in MBs |-> StillPending(r(m), q(pendBoth, {"both"}, m))]
     /\ seenSrc' = [m \in MBs |-> seenSrc[m] \cup AllOf(es, m, {"src", "both"})]
     /\ seenDst' = [m \in MBs |-> seenDst[m] \cup AllOf(es, m, {"dst", "both"})]
     \* a notification has had its consumption opportunity once a call ends while the miniblock is recorded
@@ -177,9 +182,11 @@ Entries == [meta : Metas, shard : {"self", "other", "meta"}, mb : MBs]
 RECURSIVE SeqsUpTo(_, _)
 SeqsUpTo(S, n) == IF n = 0 THEN {<<>>} ELSE SeqsUpTo(S, n - 1) \cup {Append(s, x) : s \in {t \in SeqsUpTo(S, n - 1) : Len(t) = n - 1}, x \in S}
 
+NotifyInputs == SeqsUpTo(Entries, MaxEntries)      \* constant-level: evaluated once
+
 Next ==
     \/ \E b \in Headers, e \in Epochs, ms \in SUBSET MBs : RecordBlock(b, e, ms)
-    \/ \E es \in SeqsUpTo(Entries, MaxEntries) : Notify(es)
+    \/ \E es \in NotifyInputs : Notify(es)
 
 Spec == Init /\ [][Next]_vars
 
